@@ -271,7 +271,10 @@ class FieldsIO:
         field = np.asarray(field)
         assert field.dtype == self.dtype, f"expected {self.dtype} dtype, got {field.dtype}"
         assert field.size == self.nItems, f"expected {self.nItems} values, got {field.size}"
-        with open(self.fileName, "ab") as f:
+        with open(self.fileName, "r+b") as f:
+            # write right after the last complete field: an interrupted write may have left an incomplete one at the end
+            f.seek(self.hSize + self.nFields * (self.tSize + self.fSize))
+            f.truncate()
             np.array(time, dtype=T_DTYPE).tofile(f)
             field.tofile(f)
 
